@@ -76,7 +76,7 @@ fn max_case(case: u64, rng: &mut Rng, rep: &mut Report) {
         let wit = |extra: J| inp.witness(arm, t, b).set("next_calls_before_max", if k_choice == usize::MAX { J::s("all") } else { J::u(k_choice) }).set("detail", extra);
         let (consumed, best) = match res {
             Err(p) => {
-                let wraps = generic_family(arm) && p.contains("attempt to add with overflow") && inp.presat.iter().any(|&s| s > 255);
+                let wraps = generic_family(arm) && p.contains("attempt to add with overflow") && panic_site(&p).ends_with("src/pli/mod.rs");
                 let kind = if wraps { "c03.generic_u8_wraps".to_string() } else { format!("c03.panic:{}", panic_site(&p)) };
                 rep.violate(&kind, case, format!("panic in next()/max(): {}", p), wit(J::Null));
                 continue;
